@@ -3,16 +3,23 @@
   (breakpad-symbols/src/http.rs):
 
     * `create_cache_file` / `commit_cache_file`   (http.rs:139-178)
-    * `fetch_symbol_file`                          (http.rs:262-327)  — GET, temp file in the tmp dir,
+    * `fetch_symbol_file`                          (http.rs:301-372)  — GET, temp file in the tmp dir,
       `SymbolFile::parse_async` with the tee callback, commit only after the parse returned `Ok`
-    * `locate_symbols`                             (http.rs:460-524)  — local paths and cache first,
+    * `locate_symbols`                             (http.rs:501-565)  — local paths and cache first,
       only `NotFound` cascades, the servers in order, any fetch error moves on to the next server
+    * `fetch_lookup` / `locate_file_internal`     (http.rs:81-132, 378-411)  — the opaque download of
+      binaries and extra debug files (`namespace File` below)
 
-  What is abstract (a parameter, `ParserModel`): the symbol-file parser. The model needs from it
-  only (a) the whole-buffer parse `parse : Bytes → Option Sym` (`SymbolFile::from_bytes/from_file`),
-  (b) the streaming parse as a state machine fed one network chunk at a time which reports the bytes
-  it handed to the tee callback (`feed`, `finish`), and (c) three laws that are theorems of the
-  parser model of C09/C10, recorded here as named hypotheses (`ParserLaws`).
+  The symbol-file parser enters through an interface (`ParserModel`): (a) the whole-buffer parse
+  `parse : Bytes → Option Sym` (`SymbolFile::from_bytes/from_file`), (b) the streaming parse as a
+  state machine fed one network chunk at a time which reports the bytes it handed to the tee
+  callback (`feed`, `finish`), and (c) three laws (`ParserLaws`). Two instances:
+    * `Real.model` — the byte-level parser model of C09/C10 (`MdModel.SymLine`, `MdModel.SymParse`)
+      inside a model of the loop of `SymbolFile::parse_async` built from the blocks of
+      `MdModel.Stream`. The laws are THEOREMS for it (`MdProofs.Lemmas.CacheFsReal`: `Real.laws`);
+      this is what the compiled model runs in the correspondence check.
+    * `Toy.model` — a small line-buffering parser whose runs can be decided by evaluation; the
+      laws are theorems for it too (`MdProofs.Lemmas.CacheFsToy`).
 
   What is abstract (events): the network (`status`, `chunk`, `eof`, `netError`), the point where the
   caller abandons the future (`drop`), and i/o failures of the caching side that the state does not
